@@ -48,6 +48,7 @@ type Report struct {
 	aborted      string
 	guard        time.Duration
 	watch        map[string]*time.Timer
+	idle         map[string]int
 }
 
 func envInt(name string, def int64) int64 {
@@ -221,6 +222,7 @@ func (r *Report) Guard(limit time.Duration) {
 	r.guard = limit
 	if r.watch == nil {
 		r.watch = map[string]*time.Timer{}
+		r.idle = map[string]int{}
 	}
 	r.mu.Unlock()
 }
@@ -312,14 +314,54 @@ func (r *Report) runaway(id string, limit time.Duration, input any) {
 		return // the case ended while it was being examined
 	}
 	if len(common) == 0 || cpu < time.Second {
-		// slow, not proved to be spinning: look again later; a case that never ends is stopped by
-		// the driver's lane timeout and reported inconclusive there
+		// slow, not proved to be spinning: look again later.  A case during which the whole process
+		// sits idle (all goroutines blocked; inside a synctest bubble a goroutine waiting for one of
+		// the library's own mutexes freezes virtual time) will never end: after two idle
+		// examinations the lane writes what it has and stops, and the driver reports it
+		// inconclusive (a frozen bubble is not a proof of a deadlock in the library: the holder of
+		// the mutex may merely be waiting for virtual time).
 		r.Obs("slow_cases_examined_without_runaway_proof", 1)
+		again := limit
 		r.mu.Lock()
-		if _, still := r.watch[id]; still {
-			r.watch[id] = time.AfterFunc(limit, func() { r.runaway(id, limit, input) })
+		if cpu < 100*time.Millisecond {
+			r.idle[id]++
+			again = 20 * time.Second
+		} else {
+			r.idle[id] = 0
+		}
+		frozen := r.idle[id] >= 2
+		if _, still := r.watch[id]; still && !frozen {
+			r.watch[id] = time.AfterFunc(again, func() { r.runaway(id, limit, input) })
 		}
 		r.mu.Unlock()
+		if frozen {
+			var blocked []string
+			for _, blk := range strings.Split(last, "\n\n") {
+				if strings.Contains(blk, "zishang520/engine.io/v2/") && (strings.Contains(blk, "sync.(*Mutex).Lock") || strings.Contains(blk, "sync.(*RWMutex)") || strings.Contains(blk, "sync.(*WaitGroup).Wait")) {
+					ls := strings.Split(blk, "\n")
+					var fns []string
+					for _, l := range ls[1:] {
+						if !strings.HasPrefix(l, "\t") && len(fns) < 8 {
+							if j := strings.LastIndex(l, "("); j > 0 {
+								l = l[:j]
+							}
+							fns = append(fns, l)
+						}
+					}
+					blocked = append(blocked, strings.Join(fns, " < "))
+				}
+			}
+			if len(blocked) > 3 {
+				blocked = blocked[:3]
+			}
+			r.Inconclusive(fmt.Sprintf("case %s froze: not finished after %v and the process is idle; goroutines waiting for a lock inside library code: %v", id, limit+20*time.Second, blocked))
+			r.mu.Lock()
+			r.aborted = "frozen"
+			r.mu.Unlock()
+			r.write(false)
+			fmt.Fprintf(os.Stderr, "CASE-FROZEN case=%s\n%s\n", id, last)
+			os.Exit(0)
+		}
 		return
 	}
 	var fns []string
@@ -359,6 +401,7 @@ func (r *Report) End(id string) {
 	if t := r.watch[id]; t != nil {
 		t.Stop()
 		delete(r.watch, id)
+		delete(r.idle, id)
 	}
 	r.mu.Unlock()
 	if r.journal == nil {
